@@ -16,7 +16,10 @@ TraceStep ==
        /\ tokenKinds' = IF r.op \in Tokenising THEN t0 \cup Effect(k0, r.op) ELSE t0
        /\ hist' = Append(h0, r.op)
        /\ Emit([id |-> r.id,
-                fails |-> IF r.raised # "" THEN <<>>
+                \* an operation that raised says nothing about times; tokens a completed tokenise call emitted before
+                \* the raise (detokenise refusing them) are still judged
+                fails |-> IF r.raised # "" THEN Fails(<< <<"token-fields-are-integers", tseen \subseteq {"int"}>>,
+                                                         <<"tokens-in-vocabulary", r.tokensInVocab>> >>)
                           ELSE Fails(<< <<"times-are-integers", seen \subseteq kinds'>>,
                                         <<"token-fields-are-integers", tseen \subseteq {"int"}>>,
                                         <<"tokens-in-vocabulary", r.tokensInVocab>>,
